@@ -238,4 +238,166 @@ Proof.
   apply H. exact Hm.
 Qed.
 
+
+(* ------------------------------------------------------------------ *)
+(* 2. polynomials in s: product, Phi through a product                 *)
+(* ------------------------------------------------------------------ *)
+Fixpoint pmul (P Q : list F) : list F :=
+  match Q with [] => [] | q :: Q' => padd (pscale q P) (0 :: pmul P Q') end.
+
+Lemma peval_pmul P Q s : peval (pmul P Q) s = peval P s * peval Q s.
+Proof.
+  induction Q as [|q Q IH]; cbn [pmul SPoly.peval]; [ring|].
+  rewrite (peval_padd K Kf), (peval_pscale K Kf), (peval_shift K Kf), IH. ring.
+Qed.
+
+Lemma Phi_ext (b1 b2 : nat -> F) f : forall m,
+  (forall k, b1 k = b2 k) -> Phi b1 m f = Phi b2 m f.
+Proof. induction f as [|c f IH]; intros m H; cbn [SPoly.Phi]; [reflexivity|].
+  now rewrite H, (IH (S m) H). Qed.
+
+(* Phi_m (P * Q) = Phi'_m Q  where Phi' is built on the sequence m |-> Phi_m P *)
+Lemma Phi_pmul beta P Q : forall m,
+  Phi beta m (pmul P Q) = Phi (fun m' => Phi beta m' P) m Q.
+Proof.
+  induction Q as [|q Q IH]; intros m; cbn [pmul SPoly.Phi]; [reflexivity|].
+  rewrite (Phi_padd K Kf), (Phi_pscale K Kf), (Phi_shift K Kf), IH. reflexivity.
+Qed.
+
+Lemma Phi_beta_add (b1 b2 : nat -> F) f : forall m,
+  Phi (fun k => b1 k + b2 k) m f = Phi b1 m f + Phi b2 m f.
+Proof. induction f as [|c f IH]; intros m; cbn [SPoly.Phi]; [ring|]. rewrite IH. ring. Qed.
+Lemma Phi_beta_scale t (b : nat -> F) f : forall m,
+  Phi (fun k => t * b k) m f = t * Phi b m f.
+Proof. induction f as [|c f IH]; intros m; cbn [SPoly.Phi]; [ring|]. rewrite IH. ring. Qed.
+
+Lemma Vf_ext pa pc v (b1 b2 : nat -> F) a m :
+  (forall k, b1 k = b2 k) -> Vf pa pc v b1 a m = Vf pa pc v b2 a m.
+Proof. intros H. apply Vf_ext_local. intros; apply H. Qed.
+
+Lemma Vf_Phi pa pc v beta a m : Vf pa pc v beta a m = Phi beta m (Pc pa pc v a).
+Proof. apply (proj1 (V_is_Phi K Kf pa pc v beta a m)). Qed.
+
+(* ------------------------------------------------------------------ *)
+(* 3. three vertical passes                                            *)
+(* ------------------------------------------------------------------ *)
+Section Three.
+Variables (pax pcx pay pcy paz pcz v : F).
+
+(* the abstract three-axis recursion: the y pass runs on the results of the x pass, the z pass
+   on the results of the y pass *)
+Definition V3 (beta : nat -> F) (ax ay az m : nat) : F :=
+  Vf paz pcz v (fun m' => Vf pay pcy v (fun m'' => Vf pax pcx v beta ax m'') ay m') az m.
+
+(* the product polynomial attached to a component *)
+Definition P3 (ax ay az : nat) : list F :=
+  pmul (pmul (Pc pax pcx v ax) (Pc pay pcy v ay)) (Pc paz pcz v az).
+
+Theorem V3_is_Phi beta ax ay az m : V3 beta ax ay az m = Phi beta m (P3 ax ay az).
+Proof.
+  unfold V3, P3. rewrite Vf_Phi, Phi_pmul. apply Phi_ext. intros k.
+  rewrite Vf_Phi, Phi_pmul. apply Phi_ext. intros k'. apply Vf_Phi.
+Qed.
+
+Theorem P3_eval ax ay az s :
+  peval (P3 ax ay az) s = Gs K pax pcx v s ax * Gs K pay pcy v s ay * Gs K paz pcz v s az.
+Proof.
+  unfold P3. rewrite !peval_pmul.
+  rewrite (proj1 (Pc_eval K Kf pax pcx v ax s)), (proj1 (Pc_eval K Kf pay pcy v ay s)),
+          (proj1 (Pc_eval K Kf paz pcz v az s)). reflexivity.
+Qed.
+End Three.
+
+Lemma in_mk {A} n (f : nat -> A) x : In x (mk n f) -> exists i, i < n /\ x = f i.
+Proof. unfold mk. intros H. apply in_map_iff in H. destruct H as [i [E Hi]].
+  apply in_seq in Hi. exists i. split; [lia|now symmetry]. Qed.
+
+Lemma concat_length_uniform {A} (w : nat) (ll : list (list A)) :
+  (forall r, In r ll -> length r = w) -> length (concat ll) = (length ll * w)%nat.
+Proof. induction ll as [|r ll IH]; intros H; cbn [concat length Nat.mul]; [reflexivity|].
+  rewrite app_length, IH by (intros; apply H; now right). rewrite (H r) by now left. lia. Qed.
+
+(* the three passes of vrr_prim on an arbitrary input column *)
+Definition vrr_core (L : nat) (pax pcx pay pcy paz pcz twop : F) (v0 : list (list F))
+  : list (list (list F)) :=
+  let X := vpass K L pax pcx twop v0 in
+  let v0y := mk (S L) (fun m => mk (S L) (fun ax => nth 0 (nth m (nth ax X []) []) 0)) in
+  let Y := vpass K L pay pcy twop v0y in
+  let v0z := mk (S L) (fun m => concat (mk (S L) (fun ay => nth m (nth ay Y []) []))) in
+  vpass K L paz pcz twop v0z.
+
+Lemma vrr_prim_core L Ax Ay Az Bx By Bz Cx Cy Cz alpha beta :
+  vrr_prim K L Ax Ay Az Bx By Bz Cx Cy Cz alpha beta =
+  let p := alpha + beta in
+  let Px := (alpha * Ax + beta * Bx) / p in
+  let Py := (alpha * Ay + beta * By) / p in
+  let Pz := (alpha * Az + beta * Bz) / p in
+  let twop := (1 + 1) * p in
+  let mu := alpha * beta / p in
+  let ab2 := (Ax - Bx) * (Ax - Bx) + (Ay - By) * (Ay - By) + (Az - Bz) * (Az - Bz) in
+  let pc2 := (Px - Cx) * (Px - Cx) + (Py - Cy) * (Py - Cy) + (Pz - Cz) * (Pz - Cz) in
+  let pref := (1 + 1) * fpi K / p * fexp K (- (mu * ab2)) in
+  let T := p * pc2 in
+  let Z := vrr_core L (Px - Ax) (Px - Cx) (Py - Ay) (Py - Cy) (Pz - Az) (Pz - Cz) twop
+             (mk (S L) (fun m => [fapx K (pref * fboys K m T)])) in
+  mk (S L) (fun ax => mk (S L) (fun ay => mk (S L) (fun az =>
+    fapx K (nth (ay * S L + ax) (nth 0 (nth az Z []) []) 0)))).
+Proof. reflexivity. Qed.
+
+Theorem vrr_core_entry L pax pcx pay pcy paz pcz twop v0 ax ay az m :
+  (forall m, m <= L -> length (nth m v0 []) = 1%nat) ->
+  (m + (ax + ay + az) <= L)%nat ->
+  nth (ay * S L + ax) (nth m (nth az (vrr_core L pax pcx pay pcy paz pcz twop v0) []) []) 0
+  = V3 pax pcx pay pcy paz pcz (1 / twop) (col v0 0) ax ay az m.
+Proof.
+  intros Hw Hm. unfold vrr_core.
+  set (X := vpass K L pax pcx twop v0).
+  set (v0y := mk (S L) (fun m => mk (S L) (fun ax => nth 0 (nth m (nth ax X []) []) 0))).
+  set (Y := vpass K L pay pcy twop v0y).
+  set (v0z := mk (S L) (fun m => concat (mk (S L) (fun ay => nth m (nth ay Y []) [])))).
+  assert (Hwy : forall m, m <= L -> length (nth m v0y []) = S L).
+  { intros m' Hm'. unfold v0y. rewrite nth_mk by lia. apply mk_length. }
+  assert (HYlen : forall a m, a <= L -> m <= L -> length (nth m (nth a Y []) []) = S L).
+  { apply vpass_all_lengths. exact Hwy. }
+  assert (Hrows : forall m', m' <= L ->
+            forall r, In r (mk (S L) (fun ay => nth m' (nth ay Y []) [])) -> length r = S L).
+  { intros m' Hm' r Hr. apply in_mk in Hr. destruct Hr as [i [Hi ->]]. apply HYlen; lia. }
+  assert (Hwz : forall m, m <= L -> length (nth m v0z []) = (S L * S L)%nat).
+  { intros m' Hm'. unfold v0z. rewrite nth_mk by lia.
+    rewrite (concat_length_uniform (S L)) by (apply Hrows; exact Hm'). now rewrite mk_length. }
+  assert (Hc : (ay * S L + ax < S L * S L)%nat).
+  { assert (ay * S L + ax < S ay * S L)%nat by (cbn [Nat.mul]; lia).
+    assert (S ay * S L <= S L * S L)%nat by (apply Nat.mul_le_mono_r; lia). lia. }
+  rewrite (vpass_entry L paz pcz twop v0z (S L * S L)%nat az m _ Hwz) by (lia || exact Hc).
+  unfold V3. apply Vf_ext_local. intros k Hk.
+  unfold col at 1. unfold v0z. rewrite nth_mk by lia.
+  rewrite (nth_concat_uniform (S L)) by (try apply Hrows; lia).
+  rewrite nth_mk by lia.
+  unfold Y. rewrite (vpass_entry L pay pcy twop v0y (S L) ay (m + k)%nat ax Hwy) by lia.
+  apply Vf_ext_local. intros k' Hk'.
+  unfold col at 1. unfold v0y. rewrite nth_mk by lia. rewrite nth_mk by lia.
+  unfold X. rewrite (vpass_entry L pax pcx twop v0 1%nat ax (m + k + k')%nat 0%nat Hw) by lia.
+  reflexivity.
+Qed.
+
+(* the cube returned for ANY beta sequence (the model's vrr_prim feeds beta m = pref * F_m(T)) *)
+Definition vrr_cube (L : nat) (pax pcx pay pcy paz pcz twop : F) (beta : nat -> F) : list (list (list F)) :=
+  let Z := vrr_core L pax pcx pay pcy paz pcz twop (mk (S L) (fun m => [beta m])) in
+  mk (S L) (fun ax => mk (S L) (fun ay => mk (S L) (fun az =>
+    nth (ay * S L + ax) (nth 0 (nth az Z []) []) 0))).
+
+Theorem vrr_cube_entry L pax pcx pay pcy paz pcz twop beta ax ay az :
+  (ax + ay + az <= L)%nat ->
+  cget K (vrr_cube L pax pcx pay pcy paz pcz twop beta) ax ay az
+  = Phi beta 0 (P3 pax pcx pay pcy paz pcz (1 / twop) ax ay az).
+Proof.
+  intros H. unfold cget, vrr_cube. cbv zeta.
+  rewrite nth_mk by lia. rewrite nth_mk by lia. rewrite nth_mk by lia.
+  rewrite vrr_core_entry; [| |lia].
+  - rewrite <- V3_is_Phi. unfold V3.
+    apply Vf_ext_local. intros k Hk. apply Vf_ext_local. intros k' Hk'.
+    apply Vf_ext_local. intros k'' Hk''. unfold col. rewrite nth_mk by lia. reflexivity.
+  - intros m Hm. rewrite nth_mk by lia. reflexivity.
+Qed.
+
 End P.
